@@ -17,12 +17,19 @@ PRIMS = ('transfer', '_transfer', '_transfer_slice')
 def run(ctx):
     symmetric_update(ctx)
     n = result_threading(ctx)
-    from .c08 import writeback_origin
+    from .c08 import writeback_origin, operands_written_back
     writeback_origin(ctx, 'C01.R2')
+    operands_written_back(ctx, 'C01.R2')
     floor(ctx, 'call sites of pairwise transfer primitives', n, 5)
     writeback_locality(ctx)
+    from .c02 import vectorize_once
+    vectorize_once(ctx, 'C01.R3')       # a per-well transfer applied twice debits / credits the shared side twice
     ownership(ctx)
     alias_writeback(ctx)
+    # two regions of one plate are updated through the one current plate object: both operands of a recipe transfer
+    # must be that object (a private copy loses one side's update when the results are written back by name)
+    from .c08 import current_operands
+    current_operands(ctx, 'C01.R5', only=('transfer',))
     return {'explanation': 'Structural conservation rules. R1: in the per-substance loop of the transfer (over all '
                            'items of the source, no filter) the value added to the destination entry and the value '
                            'subtracted from the source entry are the same definition (one SSA value), under the same '
